@@ -19,6 +19,7 @@ import Pog.Props.Loader
     a declared 2xx response without content returns None                                    (full, distinct keys) `no_content_returns_none`
     every other declared 2xx response has its own arm with its own return                   (full, distinct keys) `secondary_2xx_arm_exists`
     text responses return the text sent                                                     ✗         `text_response_parsed_as_json_counterexample`
+    an NDJSON stream is iterated with `iter_ndjson`, not with the SSE parser                (full, distinct keys; F43 repaired)  `ndjson_stream_uses_iter_ndjson`, `ndjson_stream_former_witness`
     binary (non-streamed) responses return the bytes sent                                   ✗         `secondary_binary_parsed_as_json_counterexample`
     a secondary 2xx response with several media types dispatches on the Content-Type        ✗ (F59)   `secondary_2xx_ignores_content_type_counterexample`
     a streaming primary response next to another 2xx response                                ✗         `stream_with_second_2xx_breaks_module_counterexample`
@@ -142,6 +143,55 @@ example : isPrimaryArm exTwo.responses ⟨.num 202, [⟨mtJson, .model "Accepted
 theorem text_response_parsed_as_json_counterexample :
     handle .bundled ⟨"GET".toList, [.lit "/motd".toList], [], none,
       [⟨.num 200, [⟨"text/plain".toList, .string⟩]⟩]⟩ ⟨200, some "text/plain".toList⟩ = .returned (.cast .str) := by
+  decide +kernel
+
+/-- C05 "streaming responses yield the events the server sent", which parser (F43 repaired): a primary response that
+    declares `application/x-ndjson` (any case), no event stream, no binary media type and whose schema is not binary
+    is iterated with `iter_ndjson` — before the repair it went through the SSE parser, which yields nothing for
+    newline-delimited JSON. -/
+theorem ndjson_stream_uses_iter_ndjson (t : TransportKind) (op : Op) (r : Reply) (hm : moduleOk op = true)
+    (hnd : (op.responses.map (·.key)).Nodup) (h2 : 200 ≤ r.status ∧ r.status < 300)
+    (x : Resp) (hx : x ∈ op.responses) (hk : x.key = .num r.status) (hp : isPrimaryArm op.responses x = true)
+    (hnj : x.content.any (fun m => lowerAscii m.mt = mtNdjson) = true)
+    (hev : x.content.any (fun m => GenCode.isInfix "event-stream".toList m.mt) = false)
+    (hbin : x.content.any (fun m => isBinaryCt m.mt) = false)
+    (hsh : ∀ m, strategyMedia x.content = some m → m.shape ≠ .binary) :
+    handle t op r = .returned .streamNdjson := by
+  have hsel := select_declared_2xx op.responses r.status h2 hnd x hx hk
+  have hb : ¬ (r.status < 200 ∨ r.status ≥ 300) := by omega
+  obtain ⟨n, hn⟩ := isPrimaryArm_iff.mp hp
+  have hres := resolveStrategy_ndjson (processedPrimary_spec hn).2.2.2.2 hnj hev hbin hsh
+  have hact : selectAction op.responses r.status = .retStrategy := by
+    rw [hsel, if_pos hp, hres]
+    rfl
+  unfold handle
+  cases t <;> simp [hm, hb, hact, runAction, returnOf, hres, strategyRet, RetKind.needsStructure]
+
+/-- `GET /nd`: a stream of `Item`s as NDJSON; 404 declared. -/
+def exNd : Op :=
+  ⟨"GET".toList, [.lit "/nd".toList], [], none,
+   [⟨.num 404, []⟩, ⟨.num 200, [⟨"Application/X-NDJSON".toList, .model "Item".toList⟩]⟩]⟩
+
+example :
+    let x : Resp := ⟨.num 200, [⟨"Application/X-NDJSON".toList, .model "Item".toList⟩]⟩
+    moduleOk exNd = true ∧ (exNd.responses.map (·.key)).Nodup ∧ isPrimaryArm exNd.responses x = true ∧
+    x.content.any (fun m => lowerAscii m.mt = mtNdjson) = true ∧
+    x.content.any (fun m => GenCode.isInfix "event-stream".toList m.mt) = false ∧
+    x.content.any (fun m => isBinaryCt m.mt) = false ∧
+    (strategyMedia x.content).map (·.shape) = some (.model "Item".toList) := by decide +kernel
+
+/-- The former witness of F43 (`application/x-ndjson` with an object schema) is iterated with `iter_ndjson`; an event
+    stream keeps the SSE parser, also when NDJSON is declared beside it; NDJSON without a usable schema streams bytes. -/
+theorem ndjson_stream_former_witness :
+    handle .bundled ⟨"GET".toList, [.lit "/nd".toList], [], none,
+      [⟨.num 200, [⟨"application/x-ndjson".toList, .model "GetNd200Response".toList⟩]⟩]⟩
+      ⟨200, some "application/x-ndjson".toList⟩ = .returned .streamNdjson ∧
+    handle .bundled ⟨"GET".toList, [.lit "/nd".toList], [], none,
+      [⟨.num 200, [⟨"application/x-ndjson".toList, .model "E".toList⟩, ⟨"text/event-stream".toList, .model "E".toList⟩]⟩]⟩
+      ⟨200, some "text/event-stream".toList⟩ = .returned .streamSse ∧
+    handle .bundled ⟨"GET".toList, [.lit "/nd".toList], [], none,
+      [⟨.num 200, [⟨"application/x-ndjson".toList, .binary⟩]⟩]⟩
+      ⟨200, some "application/x-ndjson".toList⟩ = .returned .streamBytes := by
   decide +kernel
 
 /-- ✗ C05 (binary responses return the bytes sent): a binary response that is not the primary one is
